@@ -4,6 +4,25 @@ from . import csscheck
 THEOREMS = ["GE.CssOut.utf16_len_invariant", "GE.CssOut.dst_col_exact", "GE.CssOut.entries_nondecreasing", "GE.CssOut.output_shape_ok"]
 
 
+def extra_cases(rng, quick):
+    """`:host` rules (converted: they go to the low-priority output behind the REPLAYED preludes of their at-rules) under at-rules whose preludes contain
+    multi-byte and astral characters, strings and comments: the columns of everything written after a replayed wrapper count its UTF-16 units"""
+    from . import cssgen
+    out = []
+    pre = ["@layer \U0001F600ui", "@layer é中.x\U00010000", "@media screen and (min-width:1px)", "@supports (--\U0001F600: 1)", "@container \U0001F600c (min-width: 1px)",
+           "@supports (content: \"\U0001F600\")", "@media /*\U0001F600*/ print", "@layer a"]
+    for i, p1 in enumerate(pre):
+        p2 = pre[(i + 3) % len(pre)]
+        for css in ("%s {\n  :host { color: red }\n  .a\\:b { width: 75rpx }\n}" % p1,
+                    "%s{%s{.c{x:1} :host{y:2;z:1rpx} :host .q{w:3}}} :host{v:4}" % (p1, p2),
+                    ".\U0001F600{a:b} %s { :host{color:pink} %s{ :host{margin:2rpx} } }" % (p1, p2)):
+            for o in ({"convert_host": True, "class_prefix": "p"}, {"convert_host": True, "class_prefix": "\U0001F600", "host_is": "comp/\U0001F600"}, {"convert_host": False, "class_prefix": "p"}):
+                base = cssgen.gen_options(rng.fork(("o", len(out))))
+                base.update(o)
+                out.append((base, css))
+    return out
+
+
 def run(chk):
     chk.rule = ("generated multi-line stylesheets with multi-byte characters and every rewrite kind x option sets; (1) model vs implementation: "
                 "source positions and names of every source-map entry of both outputs; (2) oracle: for each entry the token at the generated "
@@ -13,7 +32,7 @@ def run(chk):
                        "it, for every sequence of writes (GE/Model/CssOutput.lean; that StylesheetOutputWriter has this shape is the extracted "
                        "obligation output_shape_ok); source positions are tied by correspondence; PARTIAL: serde/sourcemap crate's VLQ encoding is trusted, "
                        "checked by the oracle's JSON round trip"]
-    csscheck.run_property(chk, "C19", "GE.Thm.C19", THEOREMS, 600, 10000)
+    csscheck.run_property(chk, "C19", "GE.Thm.C19", THEOREMS, 600, 10000, extra_cases=extra_cases)
 
 
 def replay(chk, path):
